@@ -27,6 +27,10 @@ RULE = (
     "of a patch built from that site's values. non-trivial = call "
     "reached in the interpreter; distinct = (abi, mode, #args, #stack args, "
     "kinds, convention)."
+    " One case in ten inserts one CallPatch object at two boundaries"
+    " of one block through RewritingContext and executes both"
+    " sequences (callable evaluated per site with the requested"
+    " block/offset, SP/registers/flags restored after each)."
 )
 ASSUMPTIONS = [
     "shadow sizes that are not multiples of the alignment are reported under their own key",
